@@ -3,8 +3,9 @@
 #ifndef TETL_VARIANT_VARIANT_ALTERNATIVE_SELECTOR_HPP
 #define TETL_VARIANT_VARIANT_ALTERNATIVE_SELECTOR_HPP
 
+#include <etl/_cstddef/size_t.hpp>
 #include <etl/_type_traits/declval.hpp>
-#include <etl/_variant/overload.hpp>
+#include <etl/_utility/index_sequence.hpp>
 
 namespace etl::detail {
 
@@ -15,15 +16,27 @@ struct variant_alternative_array {
 
 // An alternative T is a candidate for an argument of type U only if T x[] = {declval<U>()} is well-formed,
 // i.e. the conversion is not narrowing (P0608R3, P1957R2).
-template <typename T>
+// The index parameter keeps the candidates distinct when an alternative type occurs more than once
+// (such an argument is then ambiguous, i.e. not convertible, instead of a hard error).
+template <etl::size_t I, typename T>
 struct variant_alternative_selector_single {
     template <typename U>
         requires requires { variant_alternative_array<T>{{etl::declval<U>()}}; }
     auto operator()(T /*t*/, U&& /*u*/) const -> T;
 };
 
+template <typename Seq, typename... Ts>
+struct variant_alternative_selector_set;
+
+template <etl::size_t... Is, typename... Ts>
+struct variant_alternative_selector_set<etl::index_sequence<Is...>, Ts...>
+    : variant_alternative_selector_single<Is, Ts>... {
+    using variant_alternative_selector_single<Is, Ts>::operator()...;
+};
+
 template <typename... Ts>
-inline constexpr auto variant_alternative_selector = etl::overload{variant_alternative_selector_single<Ts>{}...};
+inline constexpr auto variant_alternative_selector
+    = variant_alternative_selector_set<etl::index_sequence_for<Ts...>, Ts...>{};
 
 template <typename T, typename... Ts>
 using variant_alternative_selector_t
